@@ -99,7 +99,7 @@ func (ups *Packet) ConnectPacket(manager cert.TlsConfig, mustSecure bool, connec
 	// communication. Why? Because:
 	// - we can check certificates / hostnames
 	// - we can execute mutual (client-server) authentication
-	cc, err := socketace.NewClientConnection(c, manager, false, ups.Address.Host)
+	cc, err := socketace.NewClientConnection(c, manager, false, ups.Address.Hostname())
 	if err != nil {
 		return errors.Wrapf(err, "Could not open connection")
 	} else if mustSecure && !cc.Secure() {
